@@ -223,6 +223,32 @@ extern uint64_t g_cnt;
 #define V_EXC_KINDS (l0_exc == 0 || l0_exc == V_LIMIT_EXC || l0_exc == L0_EXC_BAD_ALLOC || l0_exc == L0_EXC_ELEM)
 #define V_GREW_ONCE (g_nalloc + g_nrealloc == pre_g.nalloc + pre_g.nrealloc + 1)
 
+/* ------------------------------------------------------------------------------------------------ memory algorithms (C15)
+ * one range [p, p + g_cnt): effect of the algorithm on the tracked cell / token, stated exactly as ghost/l0.h does for the
+ * std:: namesake; pre_p1 / pre_p2 are logical variables holding the pointer arguments at entry */
+extern E *pre_p1, *pre_p2;
+#define RANGE_LOC_OK(p) ((g_cell_obj != OBJ(p) || GRID_OK(g_cell_off, p)) && (!g_tok_on || g_tok_obj != OBJ(p) || GRID_OK(g_tok_off, p)))
+#define CNT_OF(n) ((n) > 0 ? (uint64_t)(n) : (uint64_t)0)
+#define PRE_CELL_INR(p, lo, hi) (pre_g.cell_obj == OBJ(p) && pre_g.cell_off >= OFF(p) + (uint64_t)(lo) * ESZ && pre_g.cell_off < OFF(p) + (uint64_t)(hi) * ESZ)
+#define PRE_TOK_INR(p, lo, hi) (pre_g.tok_on && pre_g.tok_obj == OBJ(p) && pre_g.tok_off >= OFF(p) + (uint64_t)(lo) * ESZ && pre_g.tok_off < OFF(p) + (uint64_t)(hi) * ESZ)
+/* the elements [lo, hi) of the range starting at p have been destroyed, everything else is as at entry */
+#define DESTROYED_UPTO(p, lo, hi) ((PRE_CELL_INR(p, lo, hi) ? (CAT_TC || g_cell_st == ST_RAW) : g_cell_st == pre_g.cell_st) && g_cell_val == pre_g.cell_val && \
+                                   g_cell_obj == pre_g.cell_obj && g_cell_off == pre_g.cell_off && \
+                                   (PRE_TOK_INR(p, lo, hi) ? (CAT_TC || !g_tok_on) : g_tok_on == pre_g.tok_on) && g_tok_obj == pre_g.tok_obj && g_tok_off == pre_g.tok_off)
+
+/* loop-entry relative forms (valid in every calling context): progress k over the range that starts at f0 */
+#define LE(x) __CPROVER_loop_entry(x)
+#define CELL_INR(p, lo, hi) (g_cell_obj == OBJ(p) && g_cell_off >= OFF(p) + (uint64_t)(lo) * ESZ && g_cell_off < OFF(p) + (uint64_t)(hi) * ESZ)
+#define TOK_LOC_INR(p, lo, hi) (g_tok_obj == OBJ(p) && g_tok_off >= OFF(p) + (uint64_t)(lo) * ESZ && g_tok_off < OFF(p) + (uint64_t)(hi) * ESZ)
+#define LOOP_DESTROYED(f0, k) ((CELL_INR(f0, 0, k) ? (CAT_TC || g_cell_st == ST_RAW) : g_cell_st == LE(g_cell_st)) && \
+                               ((LE(g_tok_on) && TOK_LOC_INR(f0, 0, k)) ? (CAT_TC || !g_tok_on) : g_tok_on == LE(g_tok_on)) && g_ndtor == LE(g_ndtor) + (uint64_t)(k))
+/* k objects constructed (value-initialised / copies / moved-in) at d0, nothing else touched */
+#define LOOP_CONSTRUCTED(d0, k) ((CELL_INR(d0, 0, k) ? (g_cell_st == ST_LIVE) : (g_cell_st == LE(g_cell_st) && g_cell_val == LE(g_cell_val))) && g_nctor == LE(g_nctor) + (uint64_t)(k))
+
+/* k elements moved from f0 to d0: destinations alive, sources moved-from, the token followed its element, the rest untouched */
+#define MOVED_UPTO(f0, d0, k) ((CELL_INR(d0, 0, k) ? g_cell_st == ST_LIVE : (CELL_INR(f0, 0, k) ? (CAT_TC || g_cell_st == ST_MOVED) : (g_cell_st == LE(g_cell_st) && g_cell_val == LE(g_cell_val)))) && \
+    ((LE(g_tok_on) && LE(g_tok_obj) == OBJ(f0) && LE(g_tok_off) >= OFF(f0) && LE(g_tok_off) < OFF(f0) + (uint64_t)(k) * ESZ) ? (g_tok_obj == OBJ(d0) && g_tok_off - OFF(d0) == LE(g_tok_off) - OFF(f0)) : (g_tok_obj == LE(g_tok_obj) && g_tok_off == LE(g_tok_off))))
+
 extern struct vsnap pre_self, pre_o;
 extern struct gsnap pre_g;
 #ifdef FLAVOUR2
